@@ -6,6 +6,7 @@ from ref import eds_writer as W
 from ref import odgen
 
 PROP = "C08"
+ANCHORS = [('canopen.objectdictionary.eds', 'import_eds'), ('canopen.objectdictionary.eds', 'build_variable'), ('canopen.objectdictionary.eds', 'copy_variable'), ('canopen.objectdictionary.eds', '_convert_variable'), ('canopen.objectdictionary.eds', '_signed_int_from_hex'), ('canopen.objectdictionary.eds', '_calc_bit_length'), ('canopen.objectdictionary', 'ObjectDictionary.__getitem__'), ('canopen.objectdictionary', 'ODArray.__getitem__'), ('canopen.objectdictionary', 'ODRecord.__getitem__'), ('canopen.objectdictionary', 'import_od')]
 MODEL_VO = ["theories/Model/Eds.vo", "theories/Model/RefEds.vo"]
 COQ_IMPORTS = "From CV Require Import Model.Eds Model.RefEds."
 FULL = os.environ.get("EDS_FULL_OBS") == "1"       # debugging aid: compare complete observations instead of digests
